@@ -208,12 +208,31 @@ def shared_nodes(orig, new):
 
 
 # ------------------------------------------------------------------ generator
-def gen_case(rng, mode=None):
+MUT_BAG_KEY = "pipeline.signal_transfer.mut.arguments.bag"
+
+
+def gen_case(rng, mode=None, sweep_bag=None):
     case = c05.gen_case(rng, mode=mode, flavour=rng.choice(["plain", "fine", "vectors", "two_models_same_arg"]), max_runs=8)
     case["memory_seen"] = rng.choice([0, 0, 3, 7])          # what the caller's detector already remembers
     case["stateful"] = rng.sample(["memory", "mutate"], rng.choice([1, 2]))
     case["bag"] = [rng.randrange(9) for _ in range(rng.choice([0, 2, 3]))]
     case["fail_value"] = None
+    if sweep_bag is None:
+        sweep_bag = case["mode"] != "custom" and rng.random() < 0.35
+    if sweep_bag and case["mode"] != "custom":
+        # the list argument that the `mutate` probe changes in place is itself a swept parameter: in sequential mode the
+        # runs that step through ANOTHER parameter receive its configured value (the caller's list) as their default
+        if "mutate" not in case["stateful"]:
+            case["stateful"].append("mutate")
+        case["bag"] = case["bag"] or [rng.randrange(9), rng.randrange(9)]
+        k = len(case["bag"])
+        vals = c05._vector_values(rng, rng.choice([1, 2]), k=k)  # noqa: SLF001
+        case["params"].insert(rng.randrange(len(case["params"]) + 1),
+                              {"key": MUT_BAG_KEY, "decl": vals, "expect": vals, "enabled": True, "multi": True})
+        case["extra_defaults"] = {MUT_BAG_KEY: list(case["bag"])}
+        if sum(p["enabled"] for p in case["params"]) < 2:
+            for p in case["params"]:
+                p["enabled"] = True
     return case
 
 
@@ -368,6 +387,8 @@ def standalone(case, assignment, n_extra):
             k = f"pipeline.{m['group']}.{m['name']}.arguments.{a}"
             if k in assignment:
                 m["args"][a] = assignment[k]
+    if MUT_BAG_KEY in assignment:
+        c2["bag"] = list(assignment[MUT_BAG_KEY])
     det, pipe, _ = build(c2)
     for k, v in assignment.items():
         if k.startswith("detector."):
@@ -630,11 +651,43 @@ def check_calibration(ck, rng):
             target_data_path=[tmp + "/target.npy"], fitness_function=FitnessFunction("pyxel.calibration.fitness.sum_of_abs_residuals"),
             algorithm=Algorithm(type="sade", generations=1, population_size=8), parameters=pvs(), result_type="pixel",
             result_fit_range=[0, rows, 0, cols], target_fit_range=[0, rows, 0, cols], pygmo_seed=rng.randrange(1, 9999),
-            num_islands=rng.choice([1, 2]), num_evolutions=1)
+            num_islands=rng.choice([2, 3]), num_evolutions=1)
         obsprobes.reset()
         cal_before = snapshot(**mode_settings(cal))
-        pyxel.run_mode(cal, det, pipe)
+        dt = pyxel.run_mode(cal, det, pipe)
         ck.case({"calibration": "run_mode"}, nontrivial=True, stream="calibration")
+        # (c) the champions' re-simulations (lazy): every island's simulated data, loaded twice and in both groups, must
+        # be the data of a standalone exposure at that island's champion parameters — the pipeline keeps state on the
+        # detector (`_memory`, not reset by detector.empty()), so a processor shared between islands / computations shows
+        champs = np.asarray(dt["/champion/parameters"].values, dtype=float)[:, -1, :]
+        want = []
+        for lv, tl in champs:
+            d2, p2 = objects()
+            p2.charge_generation.cal.arguments["level"] = float(lv)
+            p2.charge_generation.cal.arguments["tilt"] = float(tl)
+            ex = pyxel.run_mode(pyx.make_exposure(), d2, p2)
+            want.append([c05.num(x) for x in c05.find_bucket(ex)["pixel"].values.reshape(-1)])
+        import dask
+
+        for attempt, (grp, var, sched) in enumerate([("/simulated", "pixel", "synchronous"), ("/full_size", "simulated_pixel", "threads"),
+                                                      ("/simulated", "pixel", "threads"), ("/simulated", "signal", "synchronous"),
+                                                      ("/simulated", "pixel", "synchronous")]):
+            if grp.strip("/") not in dt.children or var not in dt[grp].data_vars:
+                ck.count(f"calibration:simulated:{grp}/{var}:absent")
+                continue
+            with dask.config.set(scheduler=sched, num_workers=3):
+                arr = np.asarray(dt[grp][var].compute().values, dtype=float)
+            ck.count(f"calibration:simulated:{grp}/{var}:loaded")
+            if var.endswith("pixel"):
+                got = [[c05.num(x) for x in arr[i].reshape(-1)] for i in range(arr.shape[0])]
+                if got != want:
+                    bad = next(i for i in range(len(want)) if got[i] != want[i])
+                    ck.violation("C06:calibration:simulated-champion-differs-from-standalone",
+                                 f"{grp}/{var}, load #{attempt + 1} ({sched}): the re-simulation of island {bad}'s champion is not the "
+                                 f"standalone exposure at its parameters (pixel[10] = uses of the detector memory seen: "
+                                 f"{arr[bad].reshape(-1)[10]} instead of 2)",
+                                 {"calibration": "simulated", "island": bad, "attempt": attempt})
+                    break
         cal_after = snapshot(**mode_settings(cal))
         if cal_after != cal_before:
             ck.violation("C06:mode-object-changed:calibration",
@@ -655,12 +708,12 @@ def body(ck: common.Check):
     quick = ck.tier == "quick"
     batch, judges = [], []
     cases = []
-    for mode in ("product", "sequential", "sequential", "custom"):
-        c = gen_case(rng, mode=mode)
+    for n, mode in enumerate(("product", "sequential", "sequential", "custom")):
+        c = gen_case(rng, mode=mode, sweep_bag=True if n == 1 else (False if n == 2 else None))
         for _ in range(30):  # sequential mode: the configured values of the *other* swept parameters matter
             if mode != "sequential" or sum(p["enabled"] for p in c["params"]) >= 2:
                 break
-            c = gen_case(rng, mode=mode)
+            c = gen_case(rng, mode=mode, sweep_bag=True if n == 1 else False)
         cases.append(c)
     for _ in range(4 if quick else 180):
         cases.append(gen_case(rng))
